@@ -116,18 +116,18 @@ fn observe(lg: &[LoggerSpec]) -> Result<Value, String> {
       let mut per_level = Vec::new();
       for lv in 1..=5u8 {
         router.emit(level_of(lv), t, "m", via_log);
-        let mut got: Vec<String> = Vec::new();
+        // code = sum over appenders i (in APPS order) of copies_i * 4^i; -1: an event that was not the emitted one
+        let mut got: i64 = 0;
         for (name, evs) in router.drain() {
+          let i = APPS.iter().position(|a| *a == name).expect("known appender") as u32;
           for ev in evs {
-            // one entry per delivered copy: a duplicate delivery shows up as a repeated name
-            if ev.target == t && ev.level == level_of(lv) {
-              got.push(name.clone());
+            if ev.target == t && ev.level == level_of(lv) && got >= 0 {
+              got += 4i64.pow(i);
             } else {
-              got.push(format!("{}?{}", name, ev.target));
+              got = -1;
             }
           }
         }
-        got.sort();
         per_level.push(got);
       }
       per_target.push(per_level);
@@ -161,7 +161,7 @@ pub fn run(a: &Args) {
   let (mut n, mut n_panic, mut n_hist) = (0u64, 0u64, 0u64);
   for chunk in configs.chunks(group.max(1)) {
     n_hist += 1;
-    writeln!(w, "{}", json!({"k": "new", "kf": kf, "tg": targets, "what": "route"})).unwrap();
+    writeln!(w, "{}", json!({"k": "new", "kf": kf, "tg": targets, "apps": APPS, "what": "route"})).unwrap();
     for lg in chunk {
       n += 1;
       let lg2 = lg.clone();
